@@ -25,7 +25,20 @@ pub struct Case {
 }
 
 pub fn gen_start(u: &mut Unstructured) -> arbitrary::Result<i64> {
-    let k = u.int_in_range(0..=7u8)?;
+    let k = u.int_in_range(0..=9u8)?;
+    if k >= 8 {
+        // any year the clock could show: years 1..=9999 uniformly, and far years (before 0001, five
+        // and six digits, next to both range ends) - the statement does not bound the start instant
+        let y = if k == 8 {
+            u.int_in_range(1..=9_999i64)?
+        } else {
+            *u.choose(&[-5_879_600i64, -400_000, -10_000, -401, -400, -101, -100, -5, -4, -2, -1, 1, 2, 3, 4, 5, 100, 400, 1582, 1900, 9_999, 10_000, 12_000, 99_999, 100_000, 400_000, 5_879_590])?
+        };
+        let m = if u.ratio(1, 3)? { *u.choose(&[1u32, 2, 12])? } else { u.int_in_range(1..=12u32)? };
+        let d = if u.ratio(1, 3)? { cal::month_len(y, m) } else { u.int_in_range(1..=cal::month_len(y, m))? };
+        let tod = if u.ratio(1, 4)? { 86_340 + u.int_in_range(0..=59i64)? } else { u.int_in_range(0..=86_399i64)? };
+        return Ok(cal::days_from_ymd(y, m, d) * 86_400 + tod);
+    }
     if k == 7 {
         // the turn of a year next to a leap year / a common century year, any day of Nov..Mar
         let y = *u.choose(&[2023i64, 2024, 2027, 2028, 2095, 2096, 2099, 2100, 2103, 2104, 1999, 2000, 2199, 2200])?;
@@ -90,9 +103,37 @@ impl Prop for History {
     const NAME: &'static str = "C17.history";
     const BYTES: usize = 400;
     fn gen(u: &mut Unstructured<'_>) -> arbitrary::Result<Case> {
+        gen_case(u, 1, 12)
+    }
+    fn check(c: &Case, cx: &mut Cx) -> Verdict {
+        let v = run_history(c, cx);
+        astrolabe::verif::set_now(None);
+        v
+    }
+}
+
+/// the same histories with 13..=40 calls (thorough tier)
+pub struct LongHistory;
+impl Prop for LongHistory {
+    type Case = Case;
+    const NAME: &'static str = "C17.long_history";
+    const BYTES: usize = 900;
+    fn gen(u: &mut Unstructured<'_>) -> arbitrary::Result<Case> {
+        gen_case(u, 13, 40)
+    }
+    fn check(c: &Case, cx: &mut Cx) -> Verdict {
+        cx.label("13..=40_calls");
+        let v = run_history(c, cx);
+        astrolabe::verif::set_now(None);
+        v
+    }
+}
+
+fn gen_case(u: &mut Unstructured<'_>, min_steps: usize, max_steps: usize) -> arbitrary::Result<Case> {
+    {
         let expr = gen_schedule(u)?;
         let start = gen_start(u)?;
-        let n = 1 + u.int_in_range(0..=11usize)?;
+        let n = u.int_in_range(min_steps..=max_steps)?;
         let mut steps = Vec::new();
         for _ in 0..n {
             let advance = match u.int_in_range(0..=11u8)? {
@@ -111,11 +152,6 @@ impl Prop for History {
         }
         Ok(Case { expr, start, steps })
     }
-    fn check(c: &Case, cx: &mut Cx) -> Verdict {
-        let v = run_history(c, cx);
-        astrolabe::verif::set_now(None);
-        v
-    }
 }
 
 fn dt_of_secs(s: i64) -> DateTime {
@@ -126,10 +162,18 @@ fn run_history(c: &Case, cx: &mut Cx) -> Verdict {
     if c.expr.len() > 300 || c.steps.len() > 64 {
         return Verdict::Skip("malformed case");
     }
-    let lo = cal::days_from_ymd(1970, 1, 1) * 86_400;
-    let hi = cal::days_from_ymd(2400, 1, 1) * 86_400;
+    // the clock may show any year that leaves the search (nine years) and the steps (a few
+    // years) inside the representable range
+    let lo = cal::days_from_ymd(-5_879_605, 1, 1) * 86_400;
+    let hi = cal::days_from_ymd(5_879_595, 1, 1) * 86_400;
     if c.start < lo || c.start >= hi {
-        return Verdict::Skip("clock outside 1970..2400");
+        return Verdict::Skip("clock within a few years of the range ends");
+    }
+    if !(cal::days_from_ymd(1970, 1, 1) * 86_400..cal::days_from_ymd(2400, 1, 1) * 86_400).contains(&c.start) {
+        cx.nt("clock_outside_1970..2400");
+    }
+    if c.start < 0 {
+        cx.nt("clock_before_0001");
     }
     let sets = match cron::parse(&c.expr) {
         Parsed::Accept(s) => s,
@@ -162,7 +206,7 @@ fn run_history(c: &Case, cx: &mut Cx) -> Verdict {
             a => a,
         };
         clock += adv;
-        if clock >= hi + 400 * 86_400 {
+        if clock >= hi + 4_000 * 86_400 {
             return Verdict::Skip("clock ran past the window");
         }
         if let Some(l) = last {
@@ -186,6 +230,12 @@ fn run_history(c: &Case, cx: &mut Cx) -> Verdict {
             if sets.next_after_b(base, 3 * 1440 + 1) != Some(want) {
                 return fail("harness.oracle_inconsistent", "reference formulations agree", format!("{:?} after {}", c.expr, base));
             }
+        }
+        if want * 60 >= hi + 4_000 * 86_400 {
+            // repeated leap-day results walk four years per call: stop before the search itself
+            // would have to look beyond the last representable day (what next() does there is not
+            // stated)
+            return Verdict::Skip("result within a few years of the range end");
         }
         let (wd, bd) = (cal::ymd_from_days(want.div_euclid(1440)), cal::ymd_from_days(base.div_euclid(1440)));
         if (wd.0, wd.1) != (bd.0, bd.1) {
@@ -244,4 +294,5 @@ pub fn run(env: &mut Env) {
     }
     env.run_list::<History>(cases);
     env.run_random::<History>(if t { 2_000_000 } else { 300_000 });
+    env.run_random::<LongHistory>(if t { 500_000 } else { 20_000 });
 }
